@@ -41,6 +41,18 @@ class FortranObj:
     def resolve_link(self, obj_tree):
         return None
 
+    def closes_cycle(self, target, attr: str) -> bool:
+        """Would linking this object to ``target`` through attribute ``attr``
+        close (or join) a cycle of such links?  User code may be cyclic, e.g.
+        ``pointer :: p => p`` or types that extend each other."""
+        seen = {id(self)}
+        while target is not None:
+            if id(target) in seen:
+                return True
+            seen.add(id(target))
+            target = getattr(target, attr, None)
+        return False
+
     def require_link(self):
         return False
 
